@@ -3682,10 +3682,15 @@ func translate(sp *fnSpec, files map[string]*ast.File, srcs map[string][]byte) (
 				err = fmt.Errorf("%s: %s", sp.goName, te.msg)
 				return
 			}
-			panic(r)
+			// an unexpected shape of the source must not take the whole run down: the function
+			// counts as not translated (its obligation fails), the others are still translated
+			err = fmt.Errorf("%s: the translator could not handle this function (%v)", sp.goName, r)
 		}
 	}()
 	f := files[sp.file]
+	if f == nil {
+		return "", fmt.Errorf("%s: %s could not be read or parsed", sp.goName, sp.file)
+	}
 	srcBytes = srcs[sp.file]
 	fd := findFunc(f, sp.goName, sp.recvType)
 	if fd == nil {
@@ -3950,13 +3955,14 @@ func main() {
 		}
 		b, err := os.ReadFile(filepath.Join(*repo, rel))
 		if err != nil {
+			// the functions of a file that is gone count as not translated
 			fmt.Fprintln(os.Stderr, err)
-			os.Exit(2)
+			continue
 		}
 		f, err := parser.ParseFile(fset, rel, b, parser.ParseComments)
 		if err != nil {
 			fmt.Fprintln(os.Stderr, err)
-			os.Exit(2)
+			continue
 		}
 		files[rel] = f
 		srcs[rel] = b
